@@ -240,7 +240,18 @@ def gen_header(ctx, eng, tables, n_rest, name="h", with_sigs=False):
     ct = opt(ctx, name + ".ct", lambda: Adt("RegisteredLabel", "Assigned", [Sc("isize", 60, enum="CoapContentFormat")]))
     kid, iv, piv = (small_bytes(ctx, name + "." + f) for f in ("kid", "iv", "piv"))
     sigs = []
-    if with_sigs:
+    if with_sigs == "plain":
+        # 0..2 counter-signatures, each all-default (empty headers, empty signature)
+        def empty_header():
+            return mk_struct(eng.impls, "Header", alg=Adt("Option", "None", []), crit=VecV([], None, "vec"),
+                             content_type=Adt("Option", "None", []), key_id=VecV([], None, "vec"), iv=VecV([], None, "vec"),
+                             partial_iv=VecV([], None, "vec"), counter_signatures=VecV([], None, "vec"), rest=VecV([], None, "vec"))
+        for j in range(ctx.choose(3, "nsigs@" + name)):
+            sigs.append(mk_struct(eng.impls, "CoseSignature",
+                                  protected=mk_struct(eng.impls, "ProtectedHeader", original_data=Adt("Option", "None", []),
+                                                      header=empty_header()),
+                                  unprotected=empty_header(), signature=VecV([], None, "vec")))
+    elif with_sigs:
         for j in range(ctx.choose(3, "nsigs@" + name)):
             sigs.append(mk_struct(eng.impls, "CoseSignature",
                                   protected=mk_struct(eng.impls, "ProtectedHeader", original_data=Adt("Option", "None", []),
@@ -286,7 +297,7 @@ def encode_job(eng, tables, prop, tname, n_extra, deadline, max_paths=None, init
     seen = {}
 
     def harness(ctx):
-        x = GENERATORS[tname](ctx, eng, tables, n_extra)
+        x = GENERATORS[tname](ctx, eng, tables, n_extra, **({"with_sigs": "plain"} if tname == "Header" else {}))
         keep = deep_clone(x)
         ctx.side["gen"] = keep
         r = ctx.call(enc, [x])
@@ -372,6 +383,8 @@ def literal_spec(model, tname, v, impls, reg):
                 flags.append(n)
         if fld(v, "crit").elems:
             flags.append("crit")
+        if fld(v, "counter_signatures").elems:
+            flags.append("sigs=%d" % len(fld(v, "counter_signatures").elems))
         for n, f in (("kid", "key_id"), ("iv", "iv"), ("piv", "partial_iv")):
             if hx(fld(v, f)):
                 flags.append("%s=%s" % (n, hx(fld(v, f))))
